@@ -402,7 +402,7 @@ var litTypes = map[string]bool{
 
 // partial literals that are deliberate (one reason each)
 var litExceptions = map[string]string{
-	"electreIII.OnCriterionAdded|electreIII.electreIIIParams": "the addition for one new criterion carries only its ElectreCriterion; Merge keeps the distillation function of the old parameters",
+	"electreIII.OnCriterionAdded|electreIII.electreIIIParams":   "the addition for one new criterion carries only its ElectreCriterion; Merge keeps the distillation function of the old parameters",
 	"aspect_elimination.ParseParams|model.DecisionMakingParams": "throw-away state handed to Initialize to validate thresholds/series parameters at parse time: Initialize reads the criteria and the alternatives only, the state is never handed on",
 	"satisfaction.ParseParams|model.DecisionMakingParams":       "throw-away state handed to Initialize to validate thresholds/series parameters at parse time: Initialize reads the criteria and the alternatives only, the state is never handed on",
 }
